@@ -1,5 +1,6 @@
 import CLModel.Proto
 import CLModel.Checks.Properties
+import CLModel.Checks.PrintfToks
 namespace Ops.C06
 open Proto PropCk
 
@@ -81,6 +82,70 @@ def opUnescape (toks : List String) : String :=
     | none => "bad-args"
   | _ => "bad-args"
 
+
+/-! ### round 4 -/
+
+def showATok : ATok → String
+  | .lone => "lone"
+  | .pct => "pct"
+  | .arg none sp => s!"arg:-:{showText sp}"
+  | .arg (some n) sp => s!"arg:{n}:{showText sp}"
+
+/-- c06.toks <value> : the tokens of `printf.finditer(value)` with their offsets (`atoks`, the object of
+    `C06.atoks_iff_lex`) -/
+def opToks (toks : List String) : String :=
+  match toks with
+  | [v] =>
+    match parseText v with
+    | some v =>
+      match atoks v with
+      | some ts => " ".intercalate ("ok" :: ts.map (fun t => s!"{t.1}:{showATok t.2}"))
+      | none => "raise"
+    | none => "bad-args"
+  | _ => "bad-args"
+
+/-- c06.rule <locale|-> : `get_plural_rule(locale)` and the number of forms of `get_plural(locale)` -/
+def opRule (toks : List String) : String :=
+  match toks with
+  | [loc] =>
+    match parseOptText loc with
+    | some loc =>
+      match getPluralRule loc, getPlural loc with
+      | _, none => "raise"
+      | none, some none => "None None"
+      | some i, some (some cats) => s!"{i} {cats.length}"
+      | none, some (some _) => "inconsistent"
+      | some _, some none => "inconsistent"
+    | none => "bad-args"
+  | _ => "bad-args"
+
+/-- c06.pvars <value> : `[int(m.group(1)) for m in re.finditer("#([0-9]+)", value)]` -/
+def opPVars (toks : List String) : String :=
+  match toks with
+  | [v] =>
+    match parseText v with
+    | some v =>
+      match pluralVars Gen.Pat.checks_properties_PropertiesChecker_check_plural_0 v,
+            pluralVars Gen.Pat.checks_properties_PropertiesChecker_check_plural_1 v with
+      | some a, some b => if a == b then " ".intercalate ("ok" :: a.map toString) else "differ"
+      | _, _ => "raise"
+    | none => "bad-args"
+  | _ => "bad-args"
+
+/-- the specifier list `[c1, c2, …]` of one-character types -/
+def specList (t : Text) : List (Option Text) := t.map (fun c => some [c])
+
+/-- c06.verdict <refSpecs> <l10nValue> : `checkPrintf(refSpecs, l10nValue)` for a reference specifier list of
+    one-character types (each code point of the first argument is one specifier) -/
+def opVerdict (toks : List String) : String :=
+  match toks with
+  | [r, v] =>
+    match parseText r, parseText v with
+    | some r, some v => showFindings (checkPrintf (specList r) v)
+    | _, _ => "bad-args"
+  | _ => "bad-args"
+
 def ops : List (String × (List String → String)) :=
-  [("pcheck", opCheck), ("pspecs", opSpecs), ("popcodes", opOpcodes), ("pplural", opPlural), ("punescape", opUnescape)]
+  [("pcheck", opCheck), ("pspecs", opSpecs), ("popcodes", opOpcodes), ("pplural", opPlural), ("punescape", opUnescape),
+   ("c06.toks", opToks), ("c06.rule", opRule), ("c06.pvars", opPVars), ("c06.verdict", opVerdict)]
 end Ops.C06
